@@ -269,15 +269,55 @@ def scen_e2e(ch, params, out):
         ld.close()
 
 
+def scen_two_generators(ch, params, out):
+    """the configured maximum belongs to ONE generator object: constructing another generator (other limit, same or other
+    framework) between construction and rendering must not change what the first one emits"""
+    from json_to_models.dynamic_typing import ModelMeta, StringLiteral
+    from vflib import pipeline
+    fws = ["base", "pydantic", "dataclasses", "attrs"]
+    fa, fb = ch.choose("frameworks(A,B)", [(a, b) for a in fws for b in fws], shard=True)
+    ma = ch.choose("max_literals_A", [0, 1, 3, 4, 10])
+    mb = ch.choose("max_literals_B", [0, 1, 3, 4, 10])
+    n = ch.choose("distinct_strings", [1, 3, 9])
+    when = ch.choose("B_constructed", ["before_A", "between_construct_and_generate", "after_generate"])
+    strs = {f"v{i}" for i in range(n)}
+    model_a = ModelMeta({"f": StringLiteral(set(strs)), "g": int}, "1A")
+    model_a.set_raw_name("A")
+    model_b = ModelMeta({"f": StringLiteral({"x", "y"}), "g": int}, "1B")
+    model_b.set_raw_name("B")
+    GA, GB = pipeline.FRAMEWORKS[fa], pipeline.FRAMEWORKS[fb]
+    out.info = {"A": [fa, ma], "B": [fb, mb], "strings": n, "when": when}
+    try:
+        if when == "before_A":
+            gb = GB(model_b, max_literals=mb)
+        ga = GA(model_a, max_literals=ma)
+        if when == "between_construct_and_generate":
+            gb = GB(model_b, max_literals=mb)
+        _, text = ga.generate()
+        if when == "after_generate":
+            gb = GB(model_b, max_literals=mb)
+            _, text = ga.generate()
+    except Exception as e:
+        out.fail("generator_raises", f"{type(e).__name__}: {e} ({out.info})", "generator_raises")
+        return
+    expect_literal = n < ma and fa != "attrs" and ma != 0
+    has = "Literal[" in text
+    out.check(has == expect_literal, "limit_of_another_generator_applied",
+              lambda: f"generator A ({fa}, max_literals={ma}, {n} strings) rendered {'a Literal' if has else 'str'} after generator B ({fb}, max_literals={mb}) was constructed {when}:\n{text}",
+              "limit_of_another_generator_applied")
+
+
 def parts(tier):
     if tier == "quick":
         return [SMT("limits", "vflib.props.c10:kernel_limits", {}, timeout=500),
                 SMT("escaping", "vflib.props.c10:kernel_escape", {}, timeout=200, mode="SMT-S"),
                 CH("e2e", "vflib.props.c10:scen_e2e", {"counts": [1, 3, 9, 10, 11, 15, 16, 17], "limits": [0, 1, 4, 10, 11, 16, 17]},
-                   shards=16, timeout=170, path_timeout=30)]
+                   shards=16, timeout=170, path_timeout=30),
+                CH("two_generators", "vflib.props.c10:scen_two_generators", {}, shards=16, timeout=170, path_timeout=30)]
     return [SMT("limits", "vflib.props.c10:kernel_limits", {}, timeout=900),
             SMT("escaping", "vflib.props.c10:kernel_escape", {}, timeout=200, mode="SMT-S"),
-            CH("e2e", "vflib.props.c10:scen_e2e", {"counts": list(range(1, 18)), "limits": list(range(0, 18))}, shards=16, timeout=2400, path_timeout=30)]
+            CH("e2e", "vflib.props.c10:scen_e2e", {"counts": list(range(1, 18)), "limits": list(range(0, 18))}, shards=16, timeout=2400, path_timeout=30),
+            CH("two_generators", "vflib.props.c10:scen_two_generators", {}, shards=16, timeout=600, path_timeout=30)]
 
 
 META = {
